@@ -3655,7 +3655,9 @@ func (lhs *Statement) mod(op opType, rhs *Statement) error {
 	for _, x := range rhs.Conditions {
 		var c Condition
 		i := 0
-		for idx, y := range lhs.Conditions {
+		// look the condition up in the working copy: its positions move
+		// when an earlier element of the same request is removed
+		for idx, y := range cs {
 			if x.Type() == y.Type() {
 				c = y
 				i = idx
@@ -3708,7 +3710,7 @@ func (lhs *Statement) mod(op opType, rhs *Statement) error {
 	for _, x := range rhs.ModActions {
 		var a Action
 		i := 0
-		for idx, y := range lhs.ModActions {
+		for idx, y := range as {
 			if x.Type() == y.Type() {
 				a = y
 				i = idx
